@@ -167,50 +167,3 @@ Fixpoint closes (t : list tev) : list cev :=
 (* bytes handed to the filter chain, concatenated *)
 Fixpoint fdata (t : list tev) : list N :=
   match t with [] => [] | TData l :: r => l ++ fdata r | TClose _ :: r => fdata r end.
-
-(* --- correspondence case: events, then the observables of the real run -------------------------------- *)
-Definition cev_eqb (a b : cev) : bool :=
-  match a, b with
-  | RemoteClose, RemoteClose | LocalClose, LocalClose | OnReadErrClose, OnReadErrClose | OnWriteTimeout, OnWriteTimeout => true
-  | _, _ => false
-  end.
-Fixpoint list_eqb {A} (eqb : A -> A -> bool) (a b : list A) : bool :=
-  match a, b with
-  | [], [] => true
-  | x :: a', y :: b' => eqb x y && list_eqb eqb a' b'
-  | _, _ => false
-  end.
-Definition bytes_eqb := list_eqb N.eqb.
-Definition tev_eqb (a b : tev) : bool :=
-  match a, b with
-  | TData l, TData m => bytes_eqb l m
-  | TClose e, TClose f => cev_eqb e f
-  | _, _ => false
-  end.
-
-(* observed: bytes written to D's socket, bytes written to U's socket, D's trace (OnData calls + close events),
-   U's close events.  exact_trace = false: the chunking of D's reads was the kernel's (real sockets), compare the
-   concatenated OnData bytes and the close events only. *)
-Record relay_case := mkCase {
-  k_events : list event;
-  k_out_d : list N;
-  k_out_u : list N;
-  k_trace_d : list tev;
-  k_closes_u : list cev;
-  k_exact_trace : bool
-}.
-
-Definition relay_case_ok (k : relay_case) : bool :=
-  let s := run (k_events k) in
-  bytes_eqb (c_out (s_d s)) (k_out_d k) && bytes_eqb (c_out (s_u s)) (k_out_u k) &&
-  (if k_exact_trace k then list_eqb tev_eqb (c_trace (s_d s)) (k_trace_d k)
-   else bytes_eqb (fdata (c_trace (s_d s))) (fdata (k_trace_d k)) &&
-        list_eqb cev_eqb (closes (c_trace (s_d s))) (closes (k_trace_d k))) &&
-  list_eqb cev_eqb (closes (c_trace (s_u s))) (k_closes_u k).
-
-Fixpoint relay_mm_from (i : nat) (l : list relay_case) : list nat :=
-  match l with
-  | [] => []
-  | k :: l' => if relay_case_ok k then relay_mm_from (S i) l' else i :: relay_mm_from (S i) l'
-  end.
-Definition relay_mismatches (l : list relay_case) : list nat := relay_mm_from 0 l.
